@@ -15,17 +15,20 @@ EVIDENCE_DIR = os.environ.get('VERIF_EVIDENCE_DIR', os.path.join(VERIF, 'evidenc
 
 
 class Ob:
-    __slots__ = ('rule', 'key', 'ok', 'where', 'detail', 'what')
+    __slots__ = ('rule', 'key', 'ok', 'where', 'detail', 'what', 'fp')
 
-    def __init__(self, rule, key, ok, where, what, detail):
+    def __init__(self, rule, key, ok, where, what, detail, fp=None):
         self.rule, self.key, self.ok, self.where, self.what, self.detail = rule, key, bool(ok), where, what, detail
+        self.fp = fp        # optional fingerprint of the failing construct (distinguishes different failures of one obligation)
 
     def ident(self, pid):
         return '%s/%s/%s' % (pid, self.rule, self.key)
 
     def as_dict(self, pid):
-        return {'id': self.ident(pid), 'ok': self.ok, 'where': self.where, 'what': self.what,
-                'detail': self.detail}
+        d = {'id': self.ident(pid), 'ok': self.ok, 'where': self.where, 'what': self.what, 'detail': self.detail}
+        if self.fp is not None:
+            d['fingerprint'] = self.fp
+        return d
 
 
 class Ctx:
@@ -42,9 +45,9 @@ class Ctx:
         self.paths = 0
         self.floors = {}
 
-    def ob(self, rule, key, ok, where='', what='', detail=''):
+    def ob(self, rule, key, ok, where='', what='', detail='', fp=None):
         """Record one obligation.  `key` names the construct (never a line number)."""
-        o = Ob(rule, str(key), ok, where, what, detail)
+        o = Ob(rule, str(key), ok, where, what, detail, fp)
         for e in self.obs:
             if e.rule == rule and e.key == o.key:
                 raise AnalysisError('duplicate obligation key %s/%s' % (rule, key))
@@ -107,8 +110,15 @@ def run_property(pid, tier='quick', replay=None, quiet=False):
 
     known, fixed = load_known()
     failed = [o for o in ctx.obs if not o.ok]
-    viol = [o for o in failed if o.ident(pid) not in known]
-    kf = [o for o in failed if o.ident(pid) in known]
+    def listed(o):
+        e = known.get(o.ident(pid))
+        if e is None:
+            return False
+        # a listed finding suppresses exactly the failure it describes: same obligation and, where the
+        # rule provides one, the same fingerprint of the failing construct
+        return e.get('fingerprint') is None or o.fp is None or e.get('fingerprint') == o.fp
+    viol = [o for o in failed if not listed(o)]
+    kf = [o for o in failed if listed(o)]
     if replay:
         try:
             want = set(x['id'] for x in json.load(open(replay)).get('violations', []))
